@@ -1107,8 +1107,8 @@ fn emit_split_cases(pre: &[Pre], lk: &Lk, st: &mut Stats, cw: &mut Vec<String>, 
 /// with what read-fonts Device::iter decodes.
 fn dev_pool() -> Vec<Dev> {
     let mut pool = vec![];
-    // 8-bit: -127..127 here; -128 is exercised by device_roundtrip_oracle (finding device-iter-neg128-negate-overflow)
-    for (lo, hi) in [(-2i8, 1i8), (-8, 7), (-127, 127)] {
+    // (finding device-iter-neg128-negate-overflow, fixed in /repo df35a55: the 8-bit delta -128 used to panic in Device::iter)
+    for (lo, hi) in [(-2i8, 1i8), (-8, 7), (-128, 127)] {
         let pa = [lo, hi, -1, 1, lo + 1, hi - 1, -1, 0];
         let pb = [hi, lo, 1, -1, hi - 1, lo + 1, 0, -1];
         for len in [1usize, 2, 3, 4, 5, 7, 8, 9, 15, 16, 17] {
@@ -1119,8 +1119,8 @@ fn dev_pool() -> Vec<Dev> {
                 if lo == -8 && vals.iter().all(|v| (-2..=1).contains(v)) {
                     vals[0] = if k == 0 { -8 } else { 7 };
                 }
-                if lo == -127 && vals.iter().all(|v| (-8..=7).contains(v)) {
-                    vals[0] = if k == 0 { -127 } else { 127 };
+                if lo == -128 && vals.iter().all(|v| (-8..=7).contains(v)) {
+                    vals[0] = if k == 0 { -128 } else { 127 };
                 }
                 let start = 8 + (len as u16 % 5);
                 let d = wlayout::Device::new(start, start + len as u16 - 1, &vals);
